@@ -11,4 +11,7 @@ def add_obligations(pack, tier, seed):
     items += [(T.calc_h('C07'), T.WIT_F10, T.replay_calc_h), (T.do_switch('C07'), None, T.replay_do_switch)]
     items += [(fn_pu.calc_pu_coeff('C07'),), (fn_pu.set_pu_coeff('C07'),)]
     items += [(D.declaration('C07', *D.GENBASE),), (D.declaration('C07', *D.LINE),)]
+    # events at exact times: the candidate times handed to the schedule are exactly the declared times (and t -+ eps)
+    from contracts import C06_more
+    items += [(C06_more.store_switch_times_head('C07'), None, C06_more.replay_store_switch_times), (C06_more.is_time('C07'),)]
     run_contracts(pack, items)
